@@ -156,17 +156,22 @@ def run(ck):
     # ---- leaves INSIDE a forest: every leaf model of a fitted xRFM (split trees, 1-2 trees, adaptive and constant bandwidth) must satisfy the ridge identity
     #      with ITS OWN stored centers / feature matrix / bandwidth (leaf models are separate objects; nothing one leaf does may change another leaf's state)
     from harness import oracle as orc2
-    for i in range(ck.n(6, 24)):
+    for i in range(ck.n(10, 32)):
         kern, extra = [('l2', {}), ('l2_high_dim', {}), ('lpq', dict(norm_p=1.5)), ('l1', {})][i % 4]
+        # tree iterations: every tree is rebuilt from the averaged feature matrix of the previous build and the best-scoring build is kept (it is often not the last one)
+        tree_iters = [0, 2, 1, 1][i % 4] if i >= 4 else 0
+        if i >= 6:
+            kern, extra = [('l2_high_dim', {}), ('l2', {})][i % 2]; tree_iters = 2        # the default kernel reads M itself: several rebuilt trees, the kept one is often not the last
         bwm = 'adaptive' if i % 3 != 2 else 'constant'
         n = int(rr.integers(90, 160)); d = 3; nout = 1 + i % 2
         Xf = xr.make_X('random', n, d, rr); Yf = rr.standard_normal((n, nout)).astype(np.float32)
         Xvf = xr.make_X('random', 40, d, rr); Yvf = rr.standard_normal((40, nout)).astype(np.float32)
         lam = [1e-2, 1e-1][i % 2]
         xr.seed_all(2300 + i + ck.seed)
-        fm = xr.xRFM(rfm_params=xr.default_rfm_params(kernel=kern, iters=[0, 1, 2][i % 3], reg=lam, bandwidth=2.0, bandwidth_mode=bwm, exponent=[1.0, 1.2][i % 2], diag=bool(i % 2), **extra),
-                     max_leaf_size=int(rr.integers(25, 45)), n_trees=[1, 2][(i // 2) % 2], verbose=False, use_temperature_tuning=False, refill_size=20)
-        desc = dict(kind='forest', i=i, kernel=kern, bw=bwm, n=n, nout=nout, lam=lam, trees=fm.n_trees, seed=ck.seed)
+        fm = xr.xRFM(rfm_params=xr.default_rfm_params(kernel=kern, iters=(2 if i >= 6 else [0, 1, 2][i % 3]), reg=lam, bandwidth=2.0, bandwidth_mode=bwm, exponent=[1.0, 1.2][i % 2], diag=bool(i % 2), **extra),
+                     max_leaf_size=int(rr.integers(25, 45)), n_trees=[1, 2][(i // 2) % 2], verbose=False, use_temperature_tuning=False, refill_size=20,
+                     **(dict(n_tree_iters=tree_iters, split_method='random_global_agop') if tree_iters else {}))
+        desc = dict(kind='forest', i=i, kernel=kern, bw=bwm, n=n, nout=nout, lam=lam, trees=fm.n_trees, tree_iters=tree_iters, seed=ck.seed)
         try:
             with xr.quiet():
                 fm.fit(torch.tensor(Xf), torch.tensor(Yf), torch.tensor(Xvf), torch.tensor(Yvf))
